@@ -423,6 +423,15 @@ def parse_fasm_impl(txt):
             "nvals": hx(p[5]) if len(p) == 7 else None, "nrhs": hx(p[6]) if len(p) == 7 else None}
 
 
+def far_unanchored(b):
+    """finding F30: no fixed pin at all, a penalty whose targets are at least 2^14 away from the placement the nets are built around
+    (strength / distance is then below the binary32 resolution of the net weights on the diagonal)"""
+    if not b["pen"] or any(n["ext"] is not None or any(c < 0 for c, _ in n["pins"]) for n in b["nets"]):
+        return False
+    pl = b["pl"] or [Fraction(0)] * b["nc"]
+    return any(abs(t - pl[i]) >= (1 << 14) for i, (t, _) in enumerate(b["pen"][1]) if i < len(pl))
+
+
 def single_cell_star_net(b, kind=None):
     """finding F25: a net of more than two pins, all on one cell, in a model that creates star points (createStar(topo), Star, LightStar;
     SOLVE kinds 0 and 5 go through createStar(topo))"""
@@ -760,6 +769,8 @@ def check_solve(lines, impl, stats, ctx=None):
         j = next((j for j, h in enumerate(base.split()) if nonfinite_bits(int(h, 16))), None)
         if j is not None and ctx is not None and single_cell_star_net(b, kind) and ctx.known_finding("F25"):
             continue                                           # a star point on a net whose pins are all on one cell: singular system
+        if j is not None and ctx is not None and far_unanchored(b) and ctx.known_finding("F30"):
+            continue                                           # the penalty anchor is lost in the binary32 sum on the diagonal
         if j is not None:
             bad.append((l, "the solver returns a non-finite coordinate although every weight, strength, offset and position of the case is finite: "
                            "x[%d] has bits %s (%r)" % (j, base.split()[j], floats(base.split()[j])[0])))
@@ -961,6 +972,7 @@ def run(ctx):
     for s in seeds:
         asm += common.harness_gen(harness, ["asm", s, (4000 if q else 60000) // len(seeds)])
         solve += common.harness_gen(harness, ["solve", s, (1500 if q else 30000) // len(seeds)])
+        solve += common.harness_gen(harness, ["far", s, (150 if q else 3000) // len(seeds)])       # no fixed pin, targets up to 2^22 away (F30)
         solve += common.harness_gen(harness, ["self", s, (150 if q else 3000) // len(seeds)])      # nets with all pins on one cell, no penalty (F25)
         place += common.harness_gen(harness, ["place", s, (40 if q else 600) // len(seeds)])
         # accepted parameter values other than the defaults: global.noise exactly 0, every checked field at its accepted bounds
@@ -974,6 +986,14 @@ def run(ctx):
     concrete, diffs = check_asm(ctx, asm, impl, model, stats)
     simpl, _, _ = common.run_both([harness, "run"], None, solve, chunk=200)
     sbad = check_solve(solve, simpl, stats, ctx)
+
+    def is_far(l):                                                   # finding F30 (also finite garbage: the anchors are partly lost)
+        t = l.split()
+        if t[0] != "SOLVE":
+            return False
+        r = Rd(t[1:]); r.nx(); r.q(); r.nx()
+        return far_unanchored(read_body(r))
+    sbad = [(l, why) for l, why in sbad if not (is_far(l) and ctx.known_finding("F30"))]
     lso = stats.get("least_squares_oracle", {})
     if not lso.get("solutions_checked") or (lso.get("perturbed_solutions_tried") and not lso.get("perturbed_solutions_rejected")):
         # the residual oracle was never evaluated, or it accepts solutions moved by 1 % of the span: it decides nothing
@@ -981,6 +1001,20 @@ def run(ctx):
                       {"broken": "checks/c17.py ls_residual (residual oracle of SOLVE kind 0)", "statistics": lso}, found_input=False)
     pimpl, _, _ = common.run_both([harness, "run"], None, place, chunk=3)
     pbad = check_place(place, pimpl, stats)
+    # PLACEAT (finding F30): circuits without fixed cells translated by offsets up to 2^22: the same relations, and no INT_MIN coordinate
+    placeat = []
+    for s in seeds:
+        placeat += common.harness_gen(harness, ["placeat", s, (16 if q else 300) // len(seeds)])
+    aimpl, _, _ = common.run_both([harness, "run"], None, placeat, chunk=3)
+    stats["placeat"] = len(placeat)
+    for l, i in zip(placeat, aimpl):
+        if "-2147483648" in i.split(" # W")[0]:
+            if ctx.known_finding("F30"):
+                continue
+            pbad.append((l, "Circuit::placeGlobal exposes the coordinate INT_MIN (a NaN of the continuous solver) for a circuit without fixed cells "
+                            "translated by (%s, %s)" % tuple(l.split()[1:3])))
+        else:
+            pbad += [(l, why) for _, why in check_place(["PLACE " + " ".join(l.split()[3:])], [i], stats)]
     # placeGlobal WITH callbacks that do something legitimate in mid-run (resize cells, set net weights, read): traces at factors 1, 4, 1/8
     placecb = common.corpus("C17", ("PLACECB ",))
     for sd in seeds:
@@ -1106,6 +1140,13 @@ def replay(ctx, path):
         for _, d, _, _ in fdiffs:
             print("model/impl difference:", d)
         return 1 if fconcrete or fdiffs else 0
+    if tag == "PLACEAT":
+        impl, _, _ = common.run_both([harness, "run"], None, [case])
+        print("impl :", impl[0][:2000])
+        bad = ["INT_MIN coordinate exposed"] if "-2147483648" in impl[0].split(" # W")[0] else [w for _, w in check_place(["PLACE " + " ".join(case.split()[3:])], impl, stats)]
+        for why in bad:
+            print("violation:", why)
+        return 1 if bad else 0
     if tag == "SOLVEK":
         bad, info = check_solvek(ctx, harness, [], 1, stats, only=[case])
         print("SOLVEK:", {k: v for k, v in info.items() if k != "note"})
